@@ -7,7 +7,7 @@ import Operon.Model.Wiring
   rawwire a p b q                           diagram.wires.append(Wire(…))  (no check)
   handler N raise | retnone | ret p:raw:k p:typed:dt:il:k …        register_module with a scripted handler
   ext M P raw k | ext M P typed dt il k     external_inputs[M][P] = …
-  exec E                                    execute(external_inputs or None, enforce_static_checks=E)
+  exec E                                    execute(external_inputs or None, enforce_static_checks=E); E = d: default
   caps                                      required_capabilities()
   flow sdt sil ddt dil                      can_flow_to / require_flow_to
   cout|cin raw k pdt pil | typed dt il k pdt pil     _coerce_output / _coerce_input
@@ -124,7 +124,7 @@ def step (st : DSt) (toks : List String) : DSt × String :=
       ({ st with ext := setKey (natD m) (setKey (natD p) v cur) st.ext }, "ok ## ext")
     | _ => (st, "bad-op")
   | ["exec", e] =>
-    let r := execute st.d (handlerTable st.hs) st.ext (boolOf e)
+    let r := execute st.d (handlerTable st.hs) st.ext (e == "d" || boolOf e)   -- "d": the default, True
     match r.out with
     | .ok recs =>
       (st, joinSp ["ok", "order=" ++ showList (recs.map (toString ·.name)), "calls=" ++ showCalls r.calls,
